@@ -114,9 +114,9 @@ func renderScalar(ind int, key, val string, style int) (lines []string, ok bool)
 }
 
 type StyledDoc struct {
-	Text   string
+	Text    string
 	Choices []string
-	Valid  bool
+	Valid   bool
 }
 
 // vocabularies chosen to stress the greedy position matcher
@@ -184,12 +184,20 @@ func (g *styledGen) field(ind int, site, key string, vocab []string) []string {
 	return lines
 }
 
+// NestedIndents: indentations of label/annotation keys relative to `labels:` / `annotations:`. A harness that sets
+// more than one gets them as a free (not deviation-counted) dimension (C06, after seed C06_5).
+var NestedIndents = []int{2}
+
 // Styled generates a one- or two-rule document whose fields are written in every scalar style and layout.
 func Styled(c *explore.Chooser) StyledDoc {
 	g := &styledGen{c: c, ok: true}
 	layout := g.pick("layout", 5, func(i int) string {
 		return []string{"", "relaxed-list", "strict-indent4", "relaxed-indent2", "strict-2rules"}[i]
 	})
+	nest := NestedIndents[0]
+	if len(NestedIndents) > 1 {
+		nest = NestedIndents[c.Free(len(NestedIndents), "nested-indent")]
+	}
 	var out []string
 	ruleInd := 4 // indentation of rule keys
 	switch layout {
@@ -219,17 +227,17 @@ func Styled(c *explore.Chooser) StyledDoc {
 		}
 		switch g.pick(site+".labels", 4, func(i int) string { return []string{"", "block", "flow", "block-quoted-key"}[i] }) {
 		case 1:
-			labels = append([]string{strings.Repeat(" ", ruleInd) + "labels:"}, g.field(ruleInd+2, site+".lv", "severity", lvalVocab)...)
-			labels = append(labels, strings.Repeat(" ", ruleInd+2)+"team: severity")
+			labels = append([]string{strings.Repeat(" ", ruleInd) + "labels:"}, g.field(ruleInd+nest, site+".lv", "severity", lvalVocab)...)
+			labels = append(labels, strings.Repeat(" ", ruleInd+nest)+"team: severity")
 		case 2:
 			labels = []string{strings.Repeat(" ", ruleInd) + "labels: {severity: page, page: severity}"}
 		case 3:
-			labels = append([]string{strings.Repeat(" ", ruleInd) + "labels:"}, g.field(ruleInd+2, site+".lv", `"severity"`, lvalVocab)...)
+			labels = append([]string{strings.Repeat(" ", ruleInd) + "labels:"}, g.field(ruleInd+nest, site+".lv", `"severity"`, lvalVocab)...)
 		}
 		switch g.pick(site+".annotations", 3, func(i int) string { return []string{"", "block", "flow"}[i] }) {
 		case 1:
-			anns = append([]string{strings.Repeat(" ", ruleInd) + "annotations:"}, g.field(ruleInd+2, site+".av", "summary", avalVocab)...)
-			anns = append(anns, g.field(ruleInd+2, site+".av2", "description", avalVocab)...)
+			anns = append([]string{strings.Repeat(" ", ruleInd) + "annotations:"}, g.field(ruleInd+nest, site+".av", "summary", avalVocab)...)
+			anns = append(anns, g.field(ruleInd+nest, site+".av2", "description", avalVocab)...)
 		case 2:
 			anns = []string{strings.Repeat(" ", ruleInd) + `annotations: {summary: "hello world", description: 'hello'}`}
 		}
